@@ -82,6 +82,45 @@ Definition F_rebuild3 (nrm c s d : float) (a1 a2 h0 : fpt) : string :=
   show_floats (pt_floats (choose3_with FArith 0x1.999999999999ap-4%float d n1 n2)).
 
 (* ------------------------------------------------------------------ *)
+(* which template neighbours the n-point fit is given (name level):
+   DefinitionResidue.get_nearest_bonds + the selection loop of
+   Biomolecule.add_hydrogens / repair_heavy                              *)
+
+Definition add_new1 (acc : list id) (b : id) : list id := if mem b acc then acc else acc ++ [b].
+
+(* get_nearest_bonds(x): bonded atoms; then, for every bonded atom, its bonded atoms that are
+   new and not x (these are also remembered as level 2); then, for every level-2 atom, its
+   bonded atoms that are new (x itself is NOT excluded at this level, as in the code) *)
+Definition nearest_bonds (g : graph) (x : id) : list id :=
+  let l1 := fold_left add_new1 (nbrs g x) [] in
+  let '(b2, lev2) :=
+    fold_left (fun st b1 =>
+                 fold_left (fun st2 v => let '(bs, l2) := st2 in
+                                         if mem v bs || Pos.eqb v x then st2 else (bs ++ [v], l2 ++ [v]))
+                           (nbrs g b1) st)
+              (nbrs g x) (l1, []) in
+  fold_left (fun bs l2 => fold_left add_new1 (nbrs g l2) bs) lev2 b2.
+
+(* the loop `for bond in bondlist: atom = ...; if atom is None: continue; append; if len == 3: break` *)
+Fixpoint take_present (present : id -> bool) (n : nat) (l : list id) : list id :=
+  match n, l with
+  | O, _ => []
+  | _, [] => []
+  | S n', b :: t => if present b then b :: take_present present n' t else take_present present n t
+  end.
+
+(* presence as the code sees it: N+1 / C-1 through the peptide pointers (None at a chain break or
+   terminus), every other name through residue.get_atom *)
+Definition present_in (np1 cm1 : id) (has_pn has_pc : bool) (atoms : list id) (b : id) : bool :=
+  if Pos.eqb b np1 then has_pn else if Pos.eqb b cm1 then has_pc else mem b atoms.
+
+(* Some [three names] = the fit is made with these; None = fewer than three present
+   ("Couldn't rebuild" in add_hydrogens, retry later in repair_heavy) *)
+Definition fit_names (g : graph) (present : id -> bool) (x : id) : option (list id) :=
+  let l := take_present present 3 (nearest_bonds g x) in
+  if Nat.eqb (List.length l) 3 then Some l else None.
+
+(* ------------------------------------------------------------------ *)
 (* the component beyond the pivot bond                                  *)
 
 (* remove the bond b - c from the graph *)
